@@ -61,7 +61,7 @@ CHECKS = {
              "sequential-projection upper bound on the distance, kept counts / returned singular values / final state equal to a "
              "dense sequential-SVD replica of the same sweep when no singular value is within 1e-6 of the cut.",
         design_ref="DESIGN.md §4 C05",
-        note="Trusted: numpy SVD. Chains of 3-7 sites, bond <= 16, dense dimension <= 1024; tree states are covered by C11's compress checks.",
+        note="Trusted: numpy SVD. Chains of 3-7 sites, bond <= 16, dense dimension <= 1024; a quarter of the cases are tree states (2-7 nodes) truncated per edge with the same bounds (upper bound with the cross terms of unrelated edges).",
         technique="property-based testing (Hypothesis) against dense SVD bounds (theorems) and a dense differential replica",
     ),
     "C06": dict(
